@@ -125,3 +125,47 @@ def find_lock_gaps(prog, crates):
                         continue
                     findings.append((b, a1, a2, st, gap_sources))
     return findings, examined
+
+
+# ---------------------------------------------------------------------------- check-then-act on concurrent maps
+
+import re as _re
+
+PROBE = _re.compile(r"scc::hash_(map|set)::Hash(Map|Set)::<[^>]*>::(read_sync|get_sync|contains_sync|read_async|get_async|contains_async|any_sync)$"
+                    r"|dashmap::DashMap::<[^>]*>::(get|contains_key|get_mut)$|dashmap::set::DashSet::<[^>]*>::contains$")
+BLIND_WRITE = _re.compile(r"scc::hash_map::HashMap::<[^>]*>::(upsert_sync|upsert_async)$|dashmap::DashMap::<[^>]*>::insert$")
+
+
+def find_check_then_act(prog, crates):
+    """A probe of a shared concurrent map followed — on a branch decided by the probe's result — by a
+    blind overwrite of the same map (upsert / DashMap::insert) instead of an entry-API re-check: two
+    threads that both saw `absent` overwrite each other."""
+    findings = []
+    examined = 0
+    for b in prog.all_bodies(crates):
+        probes = b.calls(lambda f, t: bool(PROBE.search(f["path"])))
+        writes = b.calls(lambda f, t: bool(BLIND_WRITE.search(f["path"])))
+        if not probes or not writes:
+            continue
+        for w in writes:
+            wpath = tuple(df.access_path(b, w.node["args"][0]))
+            for p in probes:
+                examined += 1
+                if tuple(df.access_path(b, p.node["args"][0])) != wpath or not wpath:
+                    continue
+                if not b.site_dominates(p, w):
+                    continue
+                # is w reached through a branch on the probe's result?
+                decided = False
+                for sb in df.switches(b):
+                    if not b.bb_dominates(p.bb, sb):
+                        continue
+                    os_ = df.origins_of_operand(b, b.blocks[sb]["term"]["op"], extra_transparent=[(r"core::option::Option::<[^>]*>::(is_some|is_none)$", [0])])
+                    if not any(o.kind == "call" and o.site == p for o in os_):
+                        continue
+                    for v, tb in df.switch_edges(b, sb):
+                        if b.edge_dominates((sb, tb), w.bb) and w.bb in b.reachable([tb]) and any(tb2 != tb for _, tb2 in df.switch_edges(b, sb)):
+                            decided = True
+                if decided:
+                    findings.append((b, p, w))
+    return findings, examined
